@@ -1253,13 +1253,13 @@ pub const OPAQUE_BUILTINS: &[&str] = &[
     "reverse", "flatten", "flatten(@@)", "group_by(@@)", "unique", "unique_by(@@)", "sort", "sort_by(@@)", "to_entries",
     "from_entries", "with_entries(@@)", "tostring", "tonumber", "tojson", "fromjson", "explode", "implode", "test(@@)",
     "indices(@@)", "index(@@)", "rindex(@@)", "tostream", "fromstream(@@)", "truncate_stream(@@)", "getpath(@@)", "recurse",
-    "recurse(@@)", "recurse(@@; @@)", "walk(@@)", "isvalid(@@)", "path(@@)", "paths", "paths(@@)", "leaf_paths",
+    "[limit(5; recurse(@@)?)]", "[limit(5; recurse(@@; @@)?)]", "walk(@@)", "isvalid(@@)", "path(@@)", "paths", "paths(@@)", "leaf_paths",
     "setpath(@@; @@)", "delpaths(@@)", "del(@@)", "to_entries | map(@@)", "floor", "ceil", "round", "sqrt", "fabs", "log", "log10",
     "log2", "exp", "exp10", "exp2", "pow(@@; @@)", "sin", "cos", "tan", "asin", "acos", "atan", "atan2(@@; @@)", "sinh", "cosh",
     "tanh", "asinh", "acosh", "atanh", "infinite", "nan", "isinfinite", "isnan", "isnormal", "isfinite", "not", "env | type",
     "$ENV | type", "null", "trim", "ltrim", "rtrim", "transpose", "bsearch(@@)", "pick(@@)", "abs", "toarray", "have_literal_numbers",
-    "builtins | length", "normals", "finites", "limit(@@; @@)", "until(@@; @@)", "while(@@; @@)", "repeat(@@) | select(false)",
-    "range(@@)", "range(@@; @@)", "range(@@; @@; @@)", "isempty(@@)", "error", "error(@@)", "halt_error", "halt_error(@@)", "halt",
+    "builtins | length", "normals", "finites", "limit(@@; @@)", "until(. == null or . == false or true; @@)", "[limit(3; while(true; @@)?)]", "[limit(3; repeat(@@)?)]",
+    "range(@@)", "range(@@; @@)", "range(@@; @@; 1)", "range(@@; @@; 2)", "[limit(4; range(@@; @@; @@))]", "isempty(@@)", "error", "error(@@)", "halt_error", "halt_error(@@)", "halt",
     "gmtime", "mktime", "todate", "fromdate", "todateiso8601", "fromdateiso8601", "strftime(@@)", "strptime(@@)", "dateadd(@@; @@)?",
     "match(@@)", "capture(@@)", "sub(@@; @@)", "gsub(@@; @@)", "scan(@@)", "splits(@@)", "split(@@; @@)", "ascii", "@text", "@json",
     "@csv", "@tsv", "@html", "@uri", "@sh", "@base64", "@base64d", "@base32", "@base32d", "combinations", "combinations(@@)",
@@ -1278,9 +1278,9 @@ pub const OPAQUE_BUILTINS: &[&str] = &[
     "if @@ then @@ end", "@@ and @@", "@@ or @@", "@@ // @@", "-(@@)", "@@ + @@", "@@ - @@", "@@ * @@", "@@ / @@", "@@ % @@", "@@ == @@",
     "@@ < @@", "@@ >= @@", "[@@, @@] | sort", "[@@, @@] | unique", "{a: @@} * {a: {b: @@}}", "$x?", "ltrimstr(\"a\") | rtrimstr(\"b\")",
     "splits(\", \")?", "significand?", "logb?", "gamma?", "frexp?", "modf?", "ldexp(@@; @@)?", "scalb(@@; @@)?", "nearbyint?", "cbrt?",
-    "getpath([\"a\"]) as $v | $v", "env.HOME | type", "input?", "[inputs]", "debug | type", "stderr | type", "@yaml?", "@props?", "tag?",
+    "getpath([\"a\"]) as $v | $v", "env.HOME | type", "@yaml?", "@props?", "tag?",
     "line?", "column?", "key?", "kind?", "style?", "anchor?", "document_index?", "shuffle? | length?", "pivot?", "omit(@@)?", "parent?",
-    "at_offset(0)?", "todate?", "now | type", "localtime? | type", "from_unix?", "to_unix?", "tz(\"UTC\")?", "load(\"/nonexistent\")?",
+    "at_offset(0)?", "todate?", "now | type", "localtime? | type", "from_unix?", "to_unix?", "tz(\"UTC\")?", 
     "split_doc?", "file_index?", "getpath([\"a\",0,\"b\"])", "ascii_downcase?", "@dsv(\"|\")?", "@urid?", "ltrimstr(\"é\")",
     "splits(\"é\")?", "test(\"A\"; \"i\")?", "capture(\"(?<x>a)\")?", "sub(\"a\"; \"b\")?", "gsub(\"\"; \"-\")?", "scan(\"a\")?",
     "match(\"a\"; \"g\")?", "[match(\"\"; \"g\")?] | length",
